@@ -413,12 +413,10 @@ mod kani_c06 {
     //   SACK blocks form a prefix, and are carried only when an ACK number is present and sack_permitted is not set
     //   (SACK-permitted belongs to SYNs, SACK blocks to later ACKs; emit writes one or the other);
     //   the options fit the 40 option bytes a TCP header can hold (header_len() <= 60).
-    // The harnesses are split per segment shape = everything that determines the byte layout:
-    //   mss x wscale x timestamp x {no SACK, SACK permitted, 1, 2, 3 SACK blocks} x control x {ACK, no ACK};
-    // a constant shape gives CBMC a constant header length and option layout (all field VALUES stay symbolic).
-    // In constant-shape calls the prior content of the data-offset/flags word (bytes 12..14) is 0xffff in one buffer and
-    // 0x0000 in the other (every other byte is symbolic garbage); `c06_tcp_emit_parse_sym_*` harnesses run selected option
-    // shapes with fully symbolic garbage, control and ACK presence.
+    // One harness per option shape: mss x wscale x timestamp x {no SACK, SACK permitted, 1, 2, 3 SACK blocks}
+    // (39 shapes fit a header; each about 2 minutes of CBMC time: 5 representative shapes are in the quick tier, the rest in
+    // the thorough tier). Within a shape every field value, control flag, ACK presence, payload (<= TCP_PAY bytes) and the
+    // prior buffer content are symbolic.
     const TCP_PAY: usize = 4;
 
     fn valid_tcp(r: &TcpRepr) -> bool {
@@ -430,77 +428,51 @@ mod kani_c06 {
             && r.header_len() <= 60
     }
 
-    #[derive(Clone, Copy)]
-    struct TcpShape { mss: bool, ws: bool, ts: bool, sackperm: bool, nsack: usize, ctl: Option<u8>, ack: Option<bool> }
-
-    /// bytes used by header + options of a shape (before padding), from the wire format
-    fn tcp_shape_used(s: TcpShape) -> usize {
-        20 + (if s.mss { 4 } else { 0 }) + (if s.ws { 3 } else { 0 }) + (if s.sackperm { 2 } else { 0 }) + (if s.ts { 10 } else { 0 }) + (if s.nsack > 0 { 2 + 8 * s.nsack } else { 0 })
+    /// header length of an option shape, from the wire format
+    fn tcp_shape_hl(mss: bool, ws: bool, ts: bool, sackperm: bool, nsack: usize) -> usize {
+        let used = 20 + (if mss { 4 } else { 0 }) + (if ws { 3 } else { 0 }) + (if sackperm { 2 } else { 0 }) + (if ts { 10 } else { 0 }) + (if nsack > 0 { 2 + 8 * nsack } else { 0 });
+        (used + 3) / 4 * 4
     }
-    fn tcp_shape_hl(s: TcpShape) -> usize { (tcp_shape_used(s) + 3) / 4 * 4 }
-    fn tcp_ctl(c: u8) -> TcpControl { match c { 0 => TcpControl::None, 1 => TcpControl::Psh, 2 => TcpControl::Syn, 3 => TcpControl::Fin, _ => TcpControl::Rst } }
-    fn tcp_ctl_bits(c: u8) -> u8 { match c { 0 => 0, 1 => 0x08, 2 => 0x02, 3 => 0x01, _ => 0x04 } }
 
-    fn tcp_rt(s: TcpShape) {
-        if tcp_shape_hl(s) > 60 { return; }                  // shape does not fit a TCP header (proviso)
-        if s.nsack > 0 && s.ack == Some(false) { return; }   // SACK blocks need an ACK (proviso)
+    fn tcp_rt(mss: bool, ws: bool, ts: bool, sackperm: bool, nsack: usize) {
+        let k = tcp_shape_hl(mss, ws, ts, sackperm, nsack);
+        assert!(k <= 60, "shape fits a TCP header");
         let pay: [u8; TCP_PAY] = kani::any();
-        let konst = s.ctl.is_some() && s.ack.is_some();
-        let pl: usize = if konst { TCP_PAY - 1 } else { kani::any() };
+        let pl: usize = kani::any();
         kani::assume(pl <= TCP_PAY); // tag: range
         let mut sack: [Option<(u32, u32)>; 3] = [None; 3];
-        if s.nsack >= 1 { sack[0] = Some((kani::any(), kani::any())); }
-        if s.nsack >= 2 { sack[1] = Some((kani::any(), kani::any())); }
-        if s.nsack >= 3 { sack[2] = Some((kani::any(), kani::any())); }
-        let control = match s.ctl { Some(c) => tcp_ctl(c), None => tcp_ctl(kani::any::<u8>() % 5) };
-        let has_ack = match s.ack { Some(x) => x, None => s.nsack > 0 || kani::any() };
+        if nsack >= 1 { sack[0] = Some((kani::any(), kani::any())); }
+        if nsack >= 2 { sack[1] = Some((kani::any(), kani::any())); }
+        if nsack >= 3 { sack[2] = Some((kani::any(), kani::any())); }
+        let control = match kani::any::<u8>() % 5 { 0 => TcpControl::None, 1 => TcpControl::Psh, 2 => TcpControl::Syn, 3 => TcpControl::Fin, _ => TcpControl::Rst };
         let repr = TcpRepr {
             src_port: kani::any(), dst_port: kani::any(), control,
             seq_number: TcpSeqNumber(kani::any()),
-            ack_number: if has_ack { Some(TcpSeqNumber(kani::any())) } else { None },
+            ack_number: if nsack > 0 || kani::any() { Some(TcpSeqNumber(kani::any())) } else { None },
             window_len: kani::any(),
-            window_scale: if s.ws { Some(kani::any()) } else { None },
-            max_seg_size: if s.mss { Some(kani::any()) } else { None },
-            sack_permitted: s.sackperm,
+            window_scale: if ws { Some(kani::any()) } else { None },
+            max_seg_size: if mss { Some(kani::any()) } else { None },
+            sack_permitted: sackperm,
             sack_ranges: sack,
-            timestamp: if s.ts { Some(TcpTimestampRepr { tsval: kani::any(), tsecr: kani::any() }) } else { None },
+            timestamp: if ts { Some(TcpTimestampRepr { tsval: kani::any(), tsecr: kani::any() }) } else { None },
             payload: &pay[..pl],
         };
         kani::assume(valid_tcp(&repr)); // tag: proviso
         let (src, dst) = ip_pair();
         let mut a: [u8; 60 + TCP_PAY] = kani::any();
         let mut b: [u8; 60 + TCP_PAY] = kani::any();
-        if konst { a[12] = 0xff; a[13] = 0xff; b[12] = 0; b[13] = 0; }
-        let k = tcp_shape_hl(s);
         assert!(repr.header_len() == k, "C06.tcp: header_len() is the padded sum of the option lengths");
-        let n = k + pl;
-        assert!(repr.buffer_len() == n);
+        let n = repr.buffer_len();
+        assert!(n == k + pl);
         repr.emit(&mut TcpPacket::new_unchecked(&mut a[..n]), &src, &dst, &ChecksumCapabilities::ignored());
         repr.emit(&mut TcpPacket::new_unchecked(&mut b[..n]), &src, &dst, &ChecksumCapabilities::ignored());
-        same_bytes(&a[..n], &b[..n]);
-        if konst {
-            // Tractability aid, semantically a no-op: bytes whose value is fixed by the shape are asserted to hold that value and
-            // are then overwritten with the same constant, so that CBMC's symbolic execution sees a constant header length and
-            // constant padding when the parser walks the options.
-            let (c12, c13) = (((k / 4) << 4) as u8, tcp_ctl_bits(s.ctl.unwrap()) | if has_ack { 0x10 } else { 0 });
-            assert!(a[12] == c12 && a[13] == c13, "C06.tcp: data offset and flags written, reserved bits cleared");
-            a[12] = c12; a[13] = c13;
-            // option kind and length octets in the order emit writes them (RFC 9293 / 7323 / 2018 formats)
-            let mut o = 20;
-            if s.mss { assert!(a[o] == 2 && a[o + 1] == 4, "C06.tcp: MSS option header"); a[o] = 2; a[o + 1] = 4; o += 4; }
-            if s.ws { assert!(a[o] == 3 && a[o + 1] == 3, "C06.tcp: window scale option header"); a[o] = 3; a[o + 1] = 3; o += 3; }
-            if s.sackperm { assert!(a[o] == 4 && a[o + 1] == 2, "C06.tcp: SACK-permitted option"); a[o] = 4; a[o + 1] = 2; o += 2; }
-            else if s.nsack > 0 { let l = (2 + 8 * s.nsack) as u8; assert!(a[o] == 5 && a[o + 1] == l, "C06.tcp: SACK option header"); a[o] = 5; a[o + 1] = l; o += l as usize; }
-            if s.ts { assert!(a[o] == 8 && a[o + 1] == 10, "C06.tcp: timestamp option header"); a[o] = 8; a[o + 1] = 10; o += 10; }
-            assert!(o == tcp_shape_used(s));
-            while o < k { assert!(a[o] == 0, "C06.tcp: option padding is end-of-list"); a[o] = 0; o += 1; }
-        }
         let p = TcpPacket::new_checked(&a[..n]);
         assert!(p.is_ok(), "C06.tcp: emitted segment passes new_checked");
         let p = p.unwrap();
         let r = TcpRepr::parse(&p, &src, &dst, &ChecksumCapabilities::ignored());
         assert!(r.is_ok(), "C06.tcp: emitted segment parses");
         let r = r.unwrap();
+        kani::cover!(r.payload.len() == TCP_PAY && r.ack_number.is_some(), "round trip of an ACK segment with payload reachable");
         assert!(r.src_port == repr.src_port && r.dst_port == repr.dst_port && r.control == repr.control && r.seq_number == repr.seq_number
                 && r.ack_number == repr.ack_number && r.window_len == repr.window_len, "C06.tcp: fixed header fields survive");
         assert!(r.window_scale == repr.window_scale && r.max_seg_size == repr.max_seg_size && r.sack_permitted == repr.sack_permitted
@@ -509,24 +481,55 @@ mod kani_c06 {
         assert!(r.payload.len() == pl);
         let i: usize = kani::any();
         if i < pl { assert!(r.payload[i] == pay[i], "C06.tcp: payload survives"); }
+        same_bytes(&a[..n], &b[..n]);
     }
 
-    /// all control x ACK combinations of one option shape
-    fn tcp_rt_flags(mss: bool, ws: bool, ts: bool, sackperm: bool, nsack: usize) {
-        let mut c = 0u8;
-        while c < 5 {
-            tcp_rt(TcpShape { mss, ws, ts, sackperm, nsack, ctl: Some(c), ack: Some(true) });
-            tcp_rt(TcpShape { mss, ws, ts, sackperm, nsack, ctl: Some(c), ack: Some(false) });
-            c += 1;
-        }
+    macro_rules! tcp_shape {
+        ($name:ident, $mss:expr, $ws:expr, $ts:expr, $sp:expr, $ns:expr) => {
+            #[kani::proof] #[kani::unwind(8)]
+            fn $name() { tcp_rt($mss != 0, $ws != 0, $ts != 0, $sp, $ns); }
+        };
     }
-
-    #[kani::proof] #[kani::unwind(8)]
-    fn c06_tcpx_one() { tcp_rt(TcpShape { mss: true, ws: true, ts: true, sackperm: false, nsack: 0, ctl: Some(2), ack: Some(true) }); }
-    #[kani::proof] #[kani::unwind(8)]
-    fn c06_tcpx_two() { tcp_rt(TcpShape { mss: true, ws: false, ts: true, sackperm: false, nsack: 3, ctl: Some(0), ack: Some(true) }); }
-    #[kani::proof] #[kani::unwind(8)]
-    fn c06_tcpx_ten() { tcp_rt_flags(true, true, false, true, 0); }
+    // name: c06_tcp_ep_<mss><wscale><timestamp>_<sack shape>
+    tcp_shape!(c06_tcp_ep_000_none, 0, 0, 0, false, 0);
+    tcp_shape!(c06_tcp_ep_001_none, 0, 0, 1, false, 0);
+    tcp_shape!(c06_tcp_ep_010_none, 0, 1, 0, false, 0);
+    tcp_shape!(c06_tcp_ep_011_none, 0, 1, 1, false, 0);
+    tcp_shape!(c06_tcp_ep_100_none, 1, 0, 0, false, 0);
+    tcp_shape!(c06_tcp_ep_101_none, 1, 0, 1, false, 0);
+    tcp_shape!(c06_tcp_ep_110_none, 1, 1, 0, false, 0);
+    tcp_shape!(c06_tcp_ep_111_none, 1, 1, 1, false, 0);
+    tcp_shape!(c06_tcp_ep_000_perm, 0, 0, 0, true, 0);
+    tcp_shape!(c06_tcp_ep_001_perm, 0, 0, 1, true, 0);
+    tcp_shape!(c06_tcp_ep_010_perm, 0, 1, 0, true, 0);
+    tcp_shape!(c06_tcp_ep_011_perm, 0, 1, 1, true, 0);
+    tcp_shape!(c06_tcp_ep_100_perm, 1, 0, 0, true, 0);
+    tcp_shape!(c06_tcp_ep_101_perm, 1, 0, 1, true, 0);
+    tcp_shape!(c06_tcp_ep_110_perm, 1, 1, 0, true, 0);
+    tcp_shape!(c06_tcp_ep_111_perm, 1, 1, 1, true, 0);
+    tcp_shape!(c06_tcp_ep_000_s1, 0, 0, 0, false, 1);
+    tcp_shape!(c06_tcp_ep_001_s1, 0, 0, 1, false, 1);
+    tcp_shape!(c06_tcp_ep_010_s1, 0, 1, 0, false, 1);
+    tcp_shape!(c06_tcp_ep_011_s1, 0, 1, 1, false, 1);
+    tcp_shape!(c06_tcp_ep_100_s1, 1, 0, 0, false, 1);
+    tcp_shape!(c06_tcp_ep_101_s1, 1, 0, 1, false, 1);
+    tcp_shape!(c06_tcp_ep_110_s1, 1, 1, 0, false, 1);
+    tcp_shape!(c06_tcp_ep_111_s1, 1, 1, 1, false, 1);
+    tcp_shape!(c06_tcp_ep_000_s2, 0, 0, 0, false, 2);
+    tcp_shape!(c06_tcp_ep_001_s2, 0, 0, 1, false, 2);
+    tcp_shape!(c06_tcp_ep_010_s2, 0, 1, 0, false, 2);
+    tcp_shape!(c06_tcp_ep_011_s2, 0, 1, 1, false, 2);
+    tcp_shape!(c06_tcp_ep_100_s2, 1, 0, 0, false, 2);
+    tcp_shape!(c06_tcp_ep_101_s2, 1, 0, 1, false, 2);
+    tcp_shape!(c06_tcp_ep_110_s2, 1, 1, 0, false, 2);
+    tcp_shape!(c06_tcp_ep_111_s2, 1, 1, 1, false, 2);
+    tcp_shape!(c06_tcp_ep_000_s3, 0, 0, 0, false, 3);
+    tcp_shape!(c06_tcp_ep_001_s3, 0, 0, 1, false, 3);
+    tcp_shape!(c06_tcp_ep_010_s3, 0, 1, 0, false, 3);
+    tcp_shape!(c06_tcp_ep_011_s3, 0, 1, 1, false, 3);
+    tcp_shape!(c06_tcp_ep_100_s3, 1, 0, 0, false, 3);
+    tcp_shape!(c06_tcp_ep_101_s3, 1, 0, 1, false, 3);
+    tcp_shape!(c06_tcp_ep_110_s3, 1, 1, 0, false, 3);
 
     #[kani::proof] #[kani::unwind(14)]
     fn c06_tcp_parse_emit_parse() {
@@ -561,6 +564,230 @@ mod kani_c06 {
                 assert!(r2.payload.len() == r.payload.len());
                 let i: usize = kani::any();
                 if i < r.payload.len() { assert!(r2.payload[i] == r.payload[i]); }
+            }
+        }
+    }
+
+    // ------------------------------------------------------------------------------------------ ICMPv4
+    // proviso: error messages (DstUnreachable, TimeExceeded) carry the offending IPv4 header and at least 8 payload bytes
+    // (RFC 792; parse requires it); `header.payload_len` equals the number of payload bytes carried (this is what parse
+    // produces; a header announcing more than is carried describes a truncated datagram and is rejected by the embedded
+    // Ipv4Packet::new_checked).
+    #[cfg(feature = "proto-ipv4")]
+    const ICMP4_DATA: usize = 12;
+
+    #[cfg(feature = "proto-ipv4")]
+    fn icmpv4_same(x: &Icmpv4Repr, y: &Icmpv4Repr) {
+        let i: usize = kani::any();
+        match (*x, *y) {
+            (Icmpv4Repr::EchoRequest { ident: i1, seq_no: s1, data: d1 }, Icmpv4Repr::EchoRequest { ident: i2, seq_no: s2, data: d2 })
+            | (Icmpv4Repr::EchoReply { ident: i1, seq_no: s1, data: d1 }, Icmpv4Repr::EchoReply { ident: i2, seq_no: s2, data: d2 }) => {
+                assert!(i1 == i2 && s1 == s2 && d1.len() == d2.len(), "C06.icmpv4: echo fields survive");
+                if i < d1.len() { assert!(d1[i] == d2[i], "C06.icmpv4: echo data survives"); }
+            }
+            (Icmpv4Repr::DstUnreachable { reason: r1, header: h1, data: d1 }, Icmpv4Repr::DstUnreachable { reason: r2, header: h2, data: d2 }) => {
+                assert!(r1 == r2 && h1 == h2 && d1.len() == d2.len(), "C06.icmpv4: destination-unreachable fields survive");
+                if i < d1.len() { assert!(d1[i] == d2[i], "C06.icmpv4: error data survives"); }
+            }
+            (Icmpv4Repr::TimeExceeded { reason: r1, header: h1, data: d1 }, Icmpv4Repr::TimeExceeded { reason: r2, header: h2, data: d2 }) => {
+                assert!(r1 == r2 && h1 == h2 && d1.len() == d2.len(), "C06.icmpv4: time-exceeded fields survive");
+                if i < d1.len() { assert!(d1[i] == d2[i], "C06.icmpv4: error data survives"); }
+            }
+            _ => panic!("C06.icmpv4: message type changed"),
+        }
+    }
+
+    /// which: 0 echo request, 1 echo reply, 2 destination unreachable, 3 time exceeded
+    #[cfg(feature = "proto-ipv4")]
+    fn any_icmpv4<'a>(which: u8, data: &'a [u8]) -> Icmpv4Repr<'a> {
+        let header = Ipv4Repr { src_addr: ip4(), dst_addr: ip4(), next_header: IpProtocol::from(kani::any::<u8>()), payload_len: data.len(), hop_limit: kani::any() };
+        match which {
+            0 => Icmpv4Repr::EchoRequest { ident: kani::any(), seq_no: kani::any(), data },
+            1 => Icmpv4Repr::EchoReply { ident: kani::any(), seq_no: kani::any(), data },
+            2 => Icmpv4Repr::DstUnreachable { reason: Icmpv4DstUnreachable::from(kani::any::<u8>()), header, data },
+            _ => Icmpv4Repr::TimeExceeded { reason: Icmpv4TimeExceeded::from(kani::any::<u8>()), header, data },
+        }
+    }
+
+    #[cfg(feature = "proto-ipv4")]
+    fn icmpv4_rt(which: u8, check_bytes: bool) {
+        let data: [u8; ICMP4_DATA] = kani::any();
+        let dl: usize = kani::any();
+        kani::assume(dl <= ICMP4_DATA && (which < 2 || dl >= 8)); // tag: proviso
+        let repr = any_icmpv4(which, &data[..dl]);
+        let mut a: [u8; 28 + ICMP4_DATA] = kani::any();
+        let mut b: [u8; 28 + ICMP4_DATA] = kani::any();
+        let n = repr.buffer_len();
+        assert!(n <= 28 + ICMP4_DATA);
+        repr.emit(&mut Icmpv4Packet::new_unchecked(&mut a[..n]), &ChecksumCapabilities::ignored());
+        if check_bytes {
+            repr.emit(&mut Icmpv4Packet::new_unchecked(&mut b[..n]), &ChecksumCapabilities::ignored());
+            kani::cover!(dl == ICMP4_DATA, "emission with maximal data reachable");
+            same_bytes(&a[..n], &b[..n]);
+            return;
+        }
+        let p = Icmpv4Packet::new_checked(&a[..n]);
+        assert!(p.is_ok(), "C06.icmpv4: emitted packet passes new_checked");
+        let r = Icmpv4Repr::parse(&p.unwrap(), &ChecksumCapabilities::ignored());
+        kani::cover!(r.is_ok() && dl == ICMP4_DATA, "round trip with maximal data reachable");
+        assert!(r.is_ok(), "C06.icmpv4: emitted packet parses");
+        icmpv4_same(&r.unwrap(), &repr);
+    }
+
+    #[cfg(feature = "proto-ipv4")]
+    #[kani::proof] #[kani::unwind(6)]
+    fn c06_icmpv4_echo_emit_parse() { icmpv4_rt(kani::any::<u8>() % 2, false); }
+    #[cfg(feature = "proto-ipv4")]
+    #[kani::proof] #[kani::unwind(6)]
+    fn c06_icmpv4_echo_emit_deterministic() { icmpv4_rt(kani::any::<u8>() % 2, true); }
+    #[cfg(feature = "proto-ipv4")]
+    #[kani::proof] #[kani::unwind(6)]
+    fn c06_icmpv4_error_emit_parse() { icmpv4_rt(2 + kani::any::<u8>() % 2, false); }
+    /// FAILS on smoltcp 0.13.1 (genuine defect, not listed in obligations/C06.json): emit for DstUnreachable / TimeExceeded never
+    /// writes header bytes 4..8 ("unused", must be zero per RFC 792): they keep whatever the buffer held before.
+    #[cfg(feature = "proto-ipv4")]
+    #[kani::proof] #[kani::unwind(6)]
+    fn c06_icmpv4_error_emit_deterministic() { icmpv4_rt(2 + kani::any::<u8>() % 2, true); }
+
+    #[cfg(feature = "proto-ipv4")]
+    #[kani::proof] #[kani::unwind(6)]
+    fn c06_icmpv4_parse_emit_parse() {
+        const L: usize = 8 + 24 + 10; // ICMP header, IPv4 header with one option word, 8..10 payload bytes
+        let buf: [u8; L] = kani::any();
+        let n: usize = kani::any();
+        kani::assume(n <= L); // tag: range
+        if let Ok(p) = Icmpv4Packet::new_checked(&buf[..n]) {
+            if let Ok(r) = Icmpv4Repr::parse(&p, &ChecksumCapabilities::ignored()) {
+                kani::cover!(matches!(r, Icmpv4Repr::DstUnreachable { .. }) && buf[8] & 0x0f == 6, "destination unreachable quoting a header with options parsed");
+                kani::cover!(matches!(r, Icmpv4Repr::EchoReply { .. }) && n == L, "echo reply parsed");
+                let mut a: [u8; L] = kani::any();
+                let m = r.buffer_len();
+                assert!(m <= L);
+                r.emit(&mut Icmpv4Packet::new_unchecked(&mut a[..m]), &ChecksumCapabilities::ignored());
+                let p2 = Icmpv4Packet::new_checked(&a[..m]);
+                assert!(p2.is_ok());
+                let r2 = Icmpv4Repr::parse(&p2.unwrap(), &ChecksumCapabilities::ignored());
+                assert!(r2.is_ok(), "C06.icmpv4: re-emitted packet parses");
+                icmpv4_same(&r2.unwrap(), &r);
+            }
+        }
+    }
+
+    // ------------------------------------------------------------------------------------------ ICMPv6 (echo and error messages)
+    // proviso: the quoted header's payload_len fits 16 bits; the quoted data fits the minimum-MTU cut (<= 1240 - 8 - 40 bytes;
+    // longer data is cut by design). NDISC / MLD bodies have their own harnesses.
+    #[cfg(feature = "proto-ipv6")]
+    const ICMP6_DATA: usize = 8;
+
+    #[cfg(feature = "proto-ipv6")]
+    fn icmpv6_same(x: &Icmpv6Repr, y: &Icmpv6Repr) {
+        let i: usize = kani::any();
+        let (d1, d2) = match (*x, *y) {
+            (Icmpv6Repr::EchoRequest { ident: i1, seq_no: s1, data: d1 }, Icmpv6Repr::EchoRequest { ident: i2, seq_no: s2, data: d2 })
+            | (Icmpv6Repr::EchoReply { ident: i1, seq_no: s1, data: d1 }, Icmpv6Repr::EchoReply { ident: i2, seq_no: s2, data: d2 }) => {
+                assert!(i1 == i2 && s1 == s2, "C06.icmpv6: echo fields survive"); (d1, d2)
+            }
+            (Icmpv6Repr::DstUnreachable { reason: r1, header: h1, data: d1 }, Icmpv6Repr::DstUnreachable { reason: r2, header: h2, data: d2 }) => {
+                assert!(r1 == r2 && h1 == h2, "C06.icmpv6: destination-unreachable fields survive"); (d1, d2)
+            }
+            (Icmpv6Repr::PktTooBig { mtu: m1, header: h1, data: d1 }, Icmpv6Repr::PktTooBig { mtu: m2, header: h2, data: d2 }) => {
+                assert!(m1 == m2 && h1 == h2, "C06.icmpv6: packet-too-big fields survive"); (d1, d2)
+            }
+            (Icmpv6Repr::TimeExceeded { reason: r1, header: h1, data: d1 }, Icmpv6Repr::TimeExceeded { reason: r2, header: h2, data: d2 }) => {
+                assert!(r1 == r2 && h1 == h2, "C06.icmpv6: time-exceeded fields survive"); (d1, d2)
+            }
+            (Icmpv6Repr::ParamProblem { reason: r1, pointer: p1, header: h1, data: d1 }, Icmpv6Repr::ParamProblem { reason: r2, pointer: p2, header: h2, data: d2 }) => {
+                assert!(r1 == r2 && p1 == p2 && h1 == h2, "C06.icmpv6: parameter-problem fields survive"); (d1, d2)
+            }
+            _ => panic!("C06.icmpv6: message type changed"),
+        };
+        assert!(d1.len() == d2.len(), "C06.icmpv6: data length survives");
+        if i < d1.len() { assert!(d1[i] == d2[i], "C06.icmpv6: data survives"); }
+    }
+
+    /// which: 0 dst unreachable, 1 packet too big, 2 time exceeded, 3 parameter problem, 4 echo request, 5 echo reply
+    #[cfg(feature = "proto-ipv6")]
+    fn any_icmpv6<'a>(which: u8, data: &'a [u8]) -> Icmpv6Repr<'a> {
+        let header = any_ipv6();
+        kani::assume(header.payload_len <= 65535); // tag: proviso
+        match which {
+            0 => Icmpv6Repr::DstUnreachable { reason: Icmpv6DstUnreachable::from(kani::any::<u8>()), header, data },
+            1 => Icmpv6Repr::PktTooBig { mtu: kani::any(), header, data },
+            2 => Icmpv6Repr::TimeExceeded { reason: Icmpv6TimeExceeded::from(kani::any::<u8>()), header, data },
+            3 => Icmpv6Repr::ParamProblem { reason: Icmpv6ParamProblem::from(kani::any::<u8>()), pointer: kani::any(), header, data },
+            4 => Icmpv6Repr::EchoRequest { ident: kani::any(), seq_no: kani::any(), data },
+            _ => Icmpv6Repr::EchoReply { ident: kani::any(), seq_no: kani::any(), data },
+        }
+    }
+
+    #[cfg(feature = "proto-ipv6")]
+    fn icmpv6_rt(which: u8, check_bytes: bool) {
+        let data: [u8; ICMP6_DATA] = kani::any();
+        let dl: usize = kani::any();
+        kani::assume(dl <= ICMP6_DATA); // tag: range
+        let repr = any_icmpv6(which, &data[..dl]);
+        let (src, dst) = (ip6(), ip6());
+        let mut a: [u8; 48 + ICMP6_DATA] = kani::any();
+        let mut b: [u8; 48 + ICMP6_DATA] = kani::any();
+        let n = repr.buffer_len();
+        assert!(n <= 48 + ICMP6_DATA);
+        repr.emit(&src, &dst, &mut Icmpv6Packet::new_unchecked(&mut a[..n]), &ChecksumCapabilities::ignored());
+        if check_bytes {
+            repr.emit(&src, &dst, &mut Icmpv6Packet::new_unchecked(&mut b[..n]), &ChecksumCapabilities::ignored());
+            kani::cover!(dl == ICMP6_DATA, "emission with maximal data reachable");
+            same_bytes(&a[..n], &b[..n]);
+            return;
+        }
+        let p = Icmpv6Packet::new_checked(&a[..n]);
+        assert!(p.is_ok(), "C06.icmpv6: emitted packet passes new_checked");
+        let r = Icmpv6Repr::parse(&src, &dst, &p.unwrap(), &ChecksumCapabilities::ignored());
+        kani::cover!(r.is_ok() && dl == ICMP6_DATA, "round trip with maximal data reachable");
+        assert!(r.is_ok(), "C06.icmpv6: emitted packet parses");
+        icmpv6_same(&r.unwrap(), &repr);
+    }
+
+    #[cfg(feature = "proto-ipv6")]
+    #[kani::proof] #[kani::unwind(18)]
+    fn c06_icmpv6_echo_emit_parse() { icmpv6_rt(4 + kani::any::<u8>() % 2, false); }
+    #[cfg(feature = "proto-ipv6")]
+    #[kani::proof] #[kani::unwind(18)]
+    fn c06_icmpv6_echo_emit_deterministic() { icmpv6_rt(4 + kani::any::<u8>() % 2, true); }
+    #[cfg(feature = "proto-ipv6")]
+    #[kani::proof] #[kani::unwind(18)]
+    fn c06_icmpv6_error_emit_parse() { icmpv6_rt(kani::any::<u8>() % 4, false); }
+    /// packet too big / parameter problem: header word 4..8 is the MTU / pointer
+    #[cfg(feature = "proto-ipv6")]
+    #[kani::proof] #[kani::unwind(18)]
+    fn c06_icmpv6_error_emit_deterministic_mtu_ptr() { icmpv6_rt(1 + 2 * (kani::any::<u8>() % 2), true); }
+    /// FAILS on smoltcp 0.13.1 (genuine defect, not listed in obligations/C06.json): emit for DstUnreachable / TimeExceeded never
+    /// writes header bytes 4..8 ("unused", must be zero per RFC 4443): they keep whatever the buffer held before.
+    #[cfg(feature = "proto-ipv6")]
+    #[kani::proof] #[kani::unwind(18)]
+    fn c06_icmpv6_error_emit_deterministic_unused() { icmpv6_rt(2 * (kani::any::<u8>() % 2), true); }
+
+    #[cfg(feature = "proto-ipv6")]
+    #[kani::proof] #[kani::unwind(18)]
+    fn c06_icmpv6_parse_emit_parse() {
+        const L: usize = 8 + 40 + 6;
+        let buf: [u8; L] = kani::any();
+        let n: usize = kani::any();
+        kani::assume(n <= L); // tag: range
+        let (src, dst) = (ip6(), ip6());
+        let t = buf[0];
+        kani::assume(t <= 4 || t == 0x80 || t == 0x81); // tag: scope (echo and error messages; NDISC / MLD have their own harnesses)
+        if let Ok(p) = Icmpv6Packet::new_checked(&buf[..n]) {
+            if let Ok(r) = Icmpv6Repr::parse(&src, &dst, &p, &ChecksumCapabilities::ignored()) {
+                kani::cover!(matches!(r, Icmpv6Repr::ParamProblem { .. }) && n == L, "parameter problem with quoted data parsed");
+                kani::cover!(matches!(r, Icmpv6Repr::EchoRequest { .. }), "echo request parsed");
+                let mut a: [u8; L] = kani::any();
+                let m = r.buffer_len();
+                assert!(m <= L);
+                r.emit(&src, &dst, &mut Icmpv6Packet::new_unchecked(&mut a[..m]), &ChecksumCapabilities::ignored());
+                let p2 = Icmpv6Packet::new_checked(&a[..m]);
+                assert!(p2.is_ok());
+                let r2 = Icmpv6Repr::parse(&src, &dst, &p2.unwrap(), &ChecksumCapabilities::ignored());
+                assert!(r2.is_ok(), "C06.icmpv6: re-emitted packet parses");
+                icmpv6_same(&r2.unwrap(), &r);
             }
         }
     }
